@@ -37,7 +37,9 @@ def spec(symbolic, vals=None, two=False):
         qa = np.array(q); q = list(qa / np.linalg.norm(qa))
     st = {"position": [S("px", 100.0), S("py", -50.0), S("pz", -1000.0)], "velocity": [S("u", 98.0), S("v", 4.0), S("w", 9.0)], "orientation": q,
           "angular_rates": [S("wp", 0.05), S("wq", -0.03), S("wr", 0.02)]}
-    sp = {"scene": {"units": "English", "scene": {"atmosphere": {"rho": 0.0023769, "V_wind": [S("W0", 5.0), S("W1", -3.0), S("W2", 1.0)]}}},
+    # density: a linear profile in altitude (so that stale atmospheric sampling is visible); concrete replays use the standard atmosphere
+    rho = 0.0023769 if symbolic else "standard"     # (the stored control-point positions are part of the compared state, so stale sampling is visible symbolically)
+    sp = {"scene": {"units": "English", "scene": {"atmosphere": {"rho": rho, "V_wind": [S("W0", 5.0), S("W1", -3.0), S("W2", 1.0)]}}},
           "aircraft": {NAME: {"input": family_G("g5"), "state": st, "controls": {"aileron": S("da", 2.0), "elevator": S("de", -1.5)}}}}
     if two:
         sp["aircraft"]["other"] = {"input": family_G("g1"), "state": {"position": [S("opx", 30.0), S("opy", 20.0), S("opz", -1010.0)], "velocity": [90.0, 0.0, 5.0]}, "controls": {}}
@@ -72,7 +74,7 @@ def current_spec(sc, base_spec):
     return sp
 
 
-OPS = ["set_state_full", "set_state_velocity_only", "set_state_pose", "set_controls", "add_aircraft", "remove_aircraft", "solve_then_set_state", "solve_forces", "distributions_after_set"]
+OPS = ["set_state_full", "set_state_velocity_only", "set_state_pose", "set_state_translate", "set_controls", "add_aircraft", "remove_aircraft", "solve_then_set_state", "solve_forces", "distributions_after_set"]
 
 
 def run_op(op, presolved):
@@ -93,6 +95,9 @@ def run_op(op, presolved):
             sc.set_aircraft_state(st, aircraft=NAME)
         elif op == "set_state_pose":
             sc.set_aircraft_state(new_state(True, kind="pose"), aircraft=NAME)
+        elif op == "set_state_translate":
+            b = base["aircraft"][NAME]["state"]
+            sc.set_aircraft_state({"position": [sym("npx"), sym("npy"), sym("npz")], "velocity": b["velocity"], "orientation": b["orientation"], "angular_rates": b["angular_rates"]}, aircraft=NAME)
         elif op == "set_controls":
             sc.set_aircraft_control_state({"aileron": sym("nda"), "elevator": sym("nde")}, aircraft=NAME)
         elif op == "add_aircraft":
@@ -126,7 +131,8 @@ def run_op(op, presolved):
 
 def harness(ck, op, presolved):
     label = "%s from a %s Inv-state" % (op, "solved" if presolved else "not-yet-solved")
-    res = explore(lambda: run_op(op, presolved), max_paths=12, setup=lambda c: (setup_ctx(c), c.declare_unit([sym("nq%d" % i) for i in range(4)])))
+    alt = [z3.Real(n) < 0 for n in ("pz", "npz", "opz")] + [z3.Real(n) > -90000 for n in ("pz", "npz", "opz")]
+    res = explore(lambda: run_op(op, presolved), assumptions=alt, max_paths=12, setup=lambda c: (setup_ctx(c), c.declare_unit([sym("nq%d" % i) for i in range(4)])))
     ck.add_paths(res)
     for p in res:
         lab = "%s path%s" % (label, "".join("1" if d else "0" for d in p.decisions))
@@ -197,6 +203,9 @@ def replay_step(inp):
                     sc.set_aircraft_state(st, aircraft=NAME)
                 elif op == "set_state_pose":
                     sc.set_aircraft_state(new_state(False, vv, "pose"), aircraft=NAME)
+                elif op == "set_state_translate":
+                    st = dict(base["aircraft"][NAME]["state"]); st["position"] = [vv.get("npx", 400.0), vv.get("npy", -150.0), vv.get("npz", -9000.0)]
+                    sc.set_aircraft_state(st, aircraft=NAME)
                 elif op == "set_controls":
                     sc.set_aircraft_control_state({"aileron": vv.get("nda", -3.0), "elevator": vv.get("nde", 2.0)}, aircraft=NAME)
                 elif op == "add_aircraft":
